@@ -348,6 +348,19 @@ def guarded_equal(fi, e, arg_ns_names):
                     l, r = norm(c.left), norm(c.comparators[0])
                     if (l == target and r in arg_ns_names) or (r == target and l in arg_ns_names):
                         return "U0"
+    # (name := self[prefix]) == namespace  in the test itself: the name carries the argument's URI wherever that test has succeeded
+    for n in walk_function(fi.node):
+        if not isinstance(n, ast.If):
+            continue
+        conj = n.test.values if isinstance(n.test, ast.BoolOp) and isinstance(n.test.op, ast.And) else [n.test]
+        for c in conj:
+            if isinstance(c, ast.Compare) and len(c.ops) == 1 and isinstance(c.ops[0], ast.Eq):
+                for side, oth in ((c.left, c.comparators[0]), (c.comparators[0], c.left)):
+                    if isinstance(side, ast.NamedExpr) and side.value is e and isinstance(side.target, ast.Name) and norm(oth) in arg_ns_names:
+                        nm = side.target.id
+                        uses = [x for x in walk_function(fi.node) if isinstance(x, ast.Name) and x.id == nm and isinstance(x.ctx, ast.Load)]
+                        if all(any(x is y for b in n.body for y in ast.walk(b)) for x in uses):
+                            return "U0"
     return "?%s used without an equality test against the argument's namespace" % target
 
 
